@@ -130,7 +130,9 @@ def judgeOutcome (thrown : List String) (st : JSt) (tag text : String) : List St
   let hbBad :=
     if st.probe0 != "" && field side "hb" != field side0 "hb" && !reported && !st.exempt.contains "hb" then
       [s!"heart-beat {tag} side state '{sidePart o.probe}' changed without an error reaching the driver"] else []
-  let crashBad := if o.segs.any (fun s => s.startsWith "crash") then [s!"crash {tag} {o.segs.getLastD ""}"] else []
+  let crashBad := (if o.segs.any (fun s => s.startsWith "crash") then [s!"crash {tag} {o.segs.getLastD ""}"] else []) ++
+    -- an evaluation that printed so much that its record was cut off before the snapshot (an error-handler storm)
+    (if o.after == "" then [s!"crash {tag} truncated-trace"] else [])
   -- the LPC side compares this_player() before and after every catch that caught something
   let cgBad := if o.segs.any (fun s => (s.splitOn "cg-changed").length > 1) then [s!"restore {tag} command_giver not restored by catch"] else []
   -- … and a heart_beat() that failed (the error reached the backend) must not stay on: it would fail again every tick
